@@ -201,6 +201,59 @@ var knownToolDisagreements = []string{
 	"bigid",                 // stream ids >= 2^63 formatted through int64
 }
 
+// RDBX_AVOID (test-only, for trying a patched copy of the tool): when set, its comma separated
+// value REPLACES knownToolDisagreements ("" = the tool is expected to agree on everything).  Then
+// nothing outside that list is avoided by the generators, skipped for fear of a hang, or accepted
+// as an explained difference, and TestToolDisagreementsMinimal / TestToolStreamHangDemo fail
+// instead of logging.  Unset: behaviour unchanged.
+var avoidOverridden = false
+
+// the full list, kept for the coverage count when RDBX_AVOID replaces knownToolDisagreements
+var allDeviationTags []string
+
+// countDeviationFeatures counts, per tag of the full list, the keys of a dataset that exercise it.
+func countDeviationFeatures(hits map[string]int, ds []Key) {
+	for _, k := range ds {
+		_, _, feats := EncodeValue(k.Value, k.Enc)
+		hay := strings.Join(feats, " ") + " " + k.Enc.Label
+		for _, tag := range allDeviationTags {
+			if strings.Contains(hay, tag) {
+				hits[tag]++
+			}
+		}
+	}
+}
+
+func logDeviationFeatures(t *testing.T, hits map[string]int) {
+	for _, tag := range allDeviationTags {
+		t.Logf("%6d keys exercised %s", hits[tag], tag)
+	}
+}
+
+func init() {
+	allDeviationTags = append([]string(nil), knownToolDisagreements...)
+	v, ok := os.LookupEnv("RDBX_AVOID")
+	if !ok {
+		return
+	}
+	avoidOverridden = true
+	knownToolDisagreements = nil
+	for _, f := range strings.Split(v, ",") {
+		if f = strings.TrimSpace(f); f != "" {
+			knownToolDisagreements = append(knownToolDisagreements, f)
+		}
+	}
+}
+
+func knownDisagreement(tag string) bool {
+	for _, s := range knownToolDisagreements {
+		if s == tag {
+			return true
+		}
+	}
+	return false
+}
+
 func suspects(feats []string, label string) []string {
 	var out []string
 	hay := strings.Join(feats, " ") + " " + label
@@ -269,6 +322,7 @@ func compareWithTool(ds []Key, fo FileOptions, seed int64) (diffs []disagreement
 func TestToolParserUncontroversial(t *testing.T) {
 	n := testN(3000, 400)
 	keys, labels := 0, map[string]bool{}
+	hits := map[string]int{}
 	for seed := int64(0); seed < int64(n); seed++ {
 		rng := rand.New(rand.NewSource(seed))
 		opt := GenOptions{Version: 6 + rng.Intn(8), Avoid: knownToolDisagreements, Plain: seed%3 == 0}
@@ -292,12 +346,18 @@ func TestToolParserUncontroversial(t *testing.T) {
 		for _, k := range ds {
 			labels[k.Enc.Describe()] = true
 		}
+		if avoidOverridden {
+			countDeviationFeatures(hits, ds)
+		}
 		keys += len(ds)
 		if t.Failed() && seed > 50 {
 			break
 		}
 	}
 	t.Logf("%d datasets / %d keys / %d labels parsed and expanded identically by the tool", n, keys, len(labels))
+	if avoidOverridden {
+		logDeviationFeatures(t, hits)
+	}
 }
 
 // The full generator, nothing avoided: every difference must be explained by one of the known
@@ -306,6 +366,7 @@ func TestToolParserAllEncodings(t *testing.T) {
 	n := testN(3000, 400)
 	bySuspect := map[string]int{}
 	example := map[string]disagreement{}
+	hits, agreed := map[string]int{}, 0
 	for seed := int64(0); seed < int64(n); seed++ {
 		rng := rand.New(rand.NewSource(seed + 1000000))
 		opt := GenOptions{Version: 6 + rng.Intn(8), NumKeys: 1}
@@ -314,13 +375,19 @@ func TestToolParserAllEncodings(t *testing.T) {
 		}
 		ds := GenDataset(rng, opt)
 		fo := GenFileOptions(rng, opt.Version, false)
-		if _, _, feats := EncodeValue(ds[0].Value, ds[0].Enc); strings.Contains(strings.Join(feats, " "), "stream:same-after-own") {
+		if _, _, feats := EncodeValue(ds[0].Value, ds[0].Enc); knownDisagreement("stream:same-after-own") && strings.Contains(strings.Join(feats, " "), "stream:same-after-own") {
 			// the tool's stream expansion can spin forever on these (TestToolStreamHangDemo); a spinning
 			// goroutine cannot be stopped, so they are not fed to it here
 			bySuspect["stream:same-after-own (not run: may hang)"]++
 			continue
 		}
+		if avoidOverridden {
+			countDeviationFeatures(hits, ds)
+		}
 		diffs, per, err := compareWithTool(ds, fo, seed)
+		if err == nil && len(diffs) == 0 {
+			agreed++
+		}
 		if err == errToolHang {
 			t.Fatalf("seed %d %s: %v\n  features %v\n  type %d value %x", seed, ds[0].Enc.Describe(), err, per[0].Features, per[0].TypeByte, clip(per[0].ValueBytes))
 		}
@@ -346,6 +413,10 @@ func TestToolParserAllEncodings(t *testing.T) {
 				example[key] = d
 			}
 		}
+	}
+	if avoidOverridden {
+		t.Logf("%d of %d datasets parsed and expanded identically by the tool", agreed, n)
+		logDeviationFeatures(t, hits)
 	}
 	var ks []string
 	for k := range bySuspect {
@@ -411,6 +482,7 @@ func TestToolDisagreementsMinimal(t *testing.T) {
 		t.Logf("%s\n    type %d value %x", c.name, per[0].TypeByte, clip(per[0].ValueBytes))
 		t.Logf("    expected %s", showValue(c.k.Value))
 		tks, perr := toolParse(file, true)
+		agrees := false
 		switch {
 		case perr != nil:
 			t.Logf("    tool     parser error: %v", perr)
@@ -424,7 +496,11 @@ func TestToolDisagreementsMinimal(t *testing.T) {
 			if !ok {
 				verdict = "DIFFERS silently: " + why
 			}
+			agrees = ok
 			t.Logf("    tool     %s  -> %s", showValue(tks[0].val), verdict)
+		}
+		if tag := strings.Fields(c.name)[0]; avoidOverridden && !agrees && !knownDisagreement(tag) {
+			t.Errorf("%s: the tool disagrees although %q is not in RDBX_AVOID", c.name, tag)
 		}
 	}
 }
@@ -516,10 +592,10 @@ func TestToolDirectedBoundaries(t *testing.T) {
 	}
 	var zlElems, zmElems [][]byte
 	for _, e := range elems {
-		if !in24neg(e) {
+		if !in24neg(e) || !knownDisagreement("zl:int24-neg") {
 			zlElems = append(zlElems, e)
 		}
-		if len(e) < 253 {
+		if len(e) < 253 || !(knownDisagreement("zm:bigitem") || knownDisagreement("zm:item253")) {
 			zmElems = append(zmElems, e)
 		}
 	}
@@ -558,7 +634,7 @@ func TestToolDirectedBoundaries(t *testing.T) {
 		}
 		for i, c := range scoreClasses {
 			for j, s := range c.vals {
-				if ty == TypeZSetZiplist && in24neg(scoreText(s)) {
+				if ty == TypeZSetZiplist && in24neg(scoreText(s)) && knownDisagreement("zl:int24-neg") {
 					continue
 				}
 				z = append(z, ZMember{[]byte(fmt.Sprintf("sc%d.%d", i, j)), s})
@@ -616,8 +692,17 @@ func TestToolStreamHangDemo(t *testing.T) {
 	}
 	t.Logf("type %d value %x", per[0].TypeByte, per[0].ValueBytes)
 	t.Logf("file %x", file)
-	_, err := toolParseGuarded(file)
+	tks, err := toolParseGuarded(file)
 	t.Logf("tool: %v", err)
+	if err == nil && len(tks) == 1 && tks[0].execErr == nil {
+		ok, why := Equal(k.Value, tks[0].val)
+		t.Logf("tool returned %s; equal to the expected value: %v %s", showValue(tks[0].val), ok, why)
+		if avoidOverridden && !ok {
+			t.Errorf("the tool's expansion differs: %s", why)
+		}
+	} else if avoidOverridden && !knownDisagreement("stream:same-after-own") {
+		t.Errorf("the tool did not expand the stream: err %v, %d keys", err, len(tks))
+	}
 	if err == errToolHang {
 		var m1, m2 runtime.MemStats
 		runtime.ReadMemStats(&m1)
